@@ -85,6 +85,7 @@ func checkC10(c *Ctx, r *Report) {
 	r.rule("C10.R1.ed25519-key-length", 1, "publicKeyED25519 returns a key only when it is exactly 32 octets long")
 	ed25519KeyLength(c, r, "C10.R1.ed25519-key-length")
 	noPackageState(c, r, "C10.R1.key-from-record", []string{"DNSKEY.publicKeyRSA", "DNSKEY.publicKeyECDSA", "DNSKEY.publicKeyED25519"}, "signatures are checked against a key decoded earlier from another DNSKEY with the same name, algorithm and tag")
+	wildcardBelowRoot(c, r, "C10.R2.wildcard-below-root")
 }
 
 // c17R6as runs the RSA size-limit rule under another rule id (shared by C10, C17, C18).
